@@ -111,7 +111,12 @@ pub struct HubSc {
     pub kill: Option<(u32, u32, u8)>,
     /// files outside ROOT (sentinels), for C11
     pub sentinels: bool,
+    /// make the nth op of kind HUB_FAULT_KINDS[k] of server i fail (errno by nth % 3)
+    #[serde(default)]
+    pub io_fault: Option<(u32, u32, u8)>,
 }
+
+pub const HUB_FAULT_KINDS: [OpKind; 7] = [OpKind::Write, OpKind::Rename, OpKind::Open, OpKind::Mkdir, OpKind::Unlink, OpKind::Fsync, OpKind::Read];
 
 /// Body of Put number `idx` of client `client`: unique, attributable.
 pub fn put_body(client: usize, idx: usize, size: u32) -> Vec<u8> {
@@ -530,6 +535,10 @@ pub fn run_hub(sc: &HubSc, hook: Option<StepHook>) -> HubRun {
             class: if class == 1 { OpClass::Mutating } else { OpClass::FsCall },
         });
     }
+    if let Some((srv, nth, k)) = sc.io_fault {
+        let errno = [copia_simworld::fs::EIO, copia_simworld::fs::ENOSPC, copia_simworld::fs::EACCES][nth as usize % 3];
+        cfg.faults.push(Fault::FailOp { target: ProcSel::Role(format!("serve{srv}")), nth, kind: HUB_FAULT_KINDS[k as usize % HUB_FAULT_KINDS.len()], errno });
+    }
     let sim = Sim::new(w, cfg, resolver());
     if let Some(h) = hook {
         sim.on_step(h);
@@ -680,6 +689,37 @@ fn apply_model(m: &mut Model, op: &HOp, relax: Relax) -> bool {
     }
 }
 
+/// Effect of a request whose reply never arrived (its server died): what the sequential hub
+/// would have done with it in state `m`.
+fn apply_effect(m: &mut Model, op: &HOp) -> bool {
+    match &op.kind {
+        OpKindH::Put { path, expected, body, declared, .. } => {
+            if *declared != Declared::Valid || below_a_file(m, path) {
+                return true;
+            }
+            let cur = m.get(path).map(|b| b3(b));
+            if cur == *expected {
+                if m.contains_key(&format!("{path}/")) {
+                    return true;
+                }
+                add_parent_dirs(m, path);
+                m.insert(path.clone(), body.clone());
+            } else {
+                add_parent_dirs(m, path);
+                m.insert(format!("{path}.conflict-{}", short_hex(&b3(body))), body.clone());
+            }
+            true
+        }
+        OpKindH::Delete { path, expected } => {
+            if m.get(path).map(|b| b3(b)) == *expected {
+                m.remove(path);
+            }
+            true
+        }
+        _ => true,
+    }
+}
+
 /// Directories are kept in the model as marker keys ending in '/' (a directory outlives
 /// the files in it). `with_dirs` adds the markers implied by a set of files.
 pub fn add_parent_dirs(m: &mut Model, path: &str) {
@@ -723,6 +763,10 @@ pub struct Wgl<'a> {
     ops: Vec<&'a HOp>,
     final_tree: &'a Tree,
     relax: Relax,
+    /// requests of this client were served by a server that was killed or hit an injected I/O
+    /// error: a request without reply may or may not have taken effect (at any point after it was
+    /// sent), and a valid write/delete may have been answered with an Error and no effect
+    pub faulted_client: Option<usize>,
     seen: HashSet<(u64, u64)>,
     pub nodes: u64,
     pub cap: u64,
@@ -730,7 +774,7 @@ pub struct Wgl<'a> {
 
 impl<'a> Wgl<'a> {
     pub fn new(ops: Vec<&'a HOp>, final_tree: &'a Tree, relax: Relax) -> Self {
-        Self { ops, final_tree, relax, seen: HashSet::new(), nodes: 0, cap: 2_000_000 }
+        Self { ops, final_tree, relax, faulted_client: None, seen: HashSet::new(), nodes: 0, cap: 2_000_000 }
     }
 
     /// Some(true) linearizable, Some(false) not, None = search cap hit
@@ -750,8 +794,13 @@ impl<'a> Wgl<'a> {
             return false;
         }
         let n = self.ops.len();
+        // unanswered requests are optional: the search may stop once every answered one is placed
+        let answered_done = (0..n).all(|i| mask & (1 << i) != 0 || self.ops[i].resp.is_none());
+        if answered_done && &files_only(&m) == self.final_tree {
+            return true;
+        }
         if mask == (1u64 << n) - 1 {
-            return &files_only(&m) == self.final_tree;
+            return false;
         }
         if !self.seen.insert((mask, model_hash(&m))) {
             return false;
@@ -770,7 +819,29 @@ impl<'a> Wgl<'a> {
                 continue;
             }
             let mut m2 = m.clone();
-            if apply_model(&mut m2, self.ops[i], self.relax) && self.dfs(mask | (1 << i), m2) {
+            let op = self.ops[i];
+            let faulted = self.faulted_client == Some(op.client);
+            let ok = if op.resp.is_none() {
+                // no reply: only its effect (if any) is placed
+                faulted && apply_effect(&mut m2, op)
+            } else if faulted && matches!(&op.resp, Some((_, Reply::Error(_)))) && matches!(op.kind, OpKindH::Put { .. } | OpKindH::Delete { .. } | OpKindH::Get { .. } | OpKindH::List) {
+                // the server reported a failure: nothing may have changed
+                true
+            } else if faulted && matches!(&op.resp, Some((_, Reply::Content { len, body, .. })) if (body.len() as u64) < *len) {
+                // the stream ended inside the announced content (the server stopped on the error):
+                // the client sees a broken transfer, not a reply
+                true
+            } else if faulted && matches!((&op.kind, &op.resp), (OpKindH::List, Some((_, Reply::Fingerprints(_))))) {
+                // a listing taken while a file could not be read may omit it ("skipped, never
+                // guessed"); what it does list must be the model's
+                match &op.resp {
+                    Some((_, Reply::Fingerprints(got))) => got.iter().filter(|(k, _)| !is_staging(k) && !k.starts_with(".copia")).all(|(k, v)| m2.get(k).map(|b| b3(b)) == Some(*v)),
+                    _ => false,
+                }
+            } else {
+                apply_model(&mut m2, op, self.relax)
+            };
+            if ok && self.dfs(mask | (1 << i), m2) {
                 return true;
             }
         }
